@@ -908,6 +908,9 @@ func runOne(c *fakecluster.Cluster, run sysRun) (out runOut) {
 						deliver(id, status.NotFoundStatus, false, 0, false)
 						envBefore = nil
 					}
+				case "replaced":
+					// another client re-created the object: the watcher reports the new one (new UID) as Current
+					deliver(id, status.CurrentStatus, true, 0, true)
 				default: // gone
 					deliver(id, status.NotFoundStatus, false, 0, false)
 				}
